@@ -228,6 +228,20 @@ fn harness_blocking<R>(f: impl FnOnce() -> R) -> R {
     r
 }
 
+/// Scope guard for the simulation knob of the verif-sim build that makes the backtracking
+/// executor ignore its start predicate (reset on unwind as well).
+pub struct NoPrefilter(bool);
+impl NoPrefilter {
+    pub fn set(on: bool) -> NoPrefilter {
+        NoPrefilter(regress::simhook::set_no_prefilter(on))
+    }
+}
+impl Drop for NoPrefilter {
+    fn drop(&mut self) {
+        regress::simhook::set_no_prefilter(self.0);
+    }
+}
+
 /// The position part of a formatted first-match answer ("Some(3..5" or "None"). The
 /// metamorphic relations on the first-match function (cursor shift, haystack extension,
 /// prefilter-free twin, pinned regex) exist to validate WHERE the first match is - that is
@@ -296,6 +310,7 @@ pub struct ModelStats {
     pub extension_informative: u64,
     pub shift_checks: u64,
     pub twin_checks: u64,
+    pub twin_knob_honoured: u64,
     pub shift_informative: u64,
     pub pinned_queries: u64,
     pub pinned_unknown: u64,
@@ -522,9 +537,15 @@ impl<'w> Model<'w> {
                 hsel.str(text);
                 hsel.u64(cursor as u64 ^ 0x7717);
                 if hsel.0 % 2 == 0 && !at_c.starts_with("NoRegex") && !at_c.starts_with("Panicked") {
-                    let twin = RegexSpec { pattern: format!("(?:{}|(?!))", spec.pattern), flags: spec.flags.clone(), exec: spec.exec, input: spec.input };
+                    // backtracker: the same regex with the simulation knob "skip the start-position
+                    // prefilter" set (a hook of the verif-sim build: every offset is attempted, whatever
+                    // predicate was derived - also from the twin pattern, seeded C09-Q); PikeVM (no such
+                    // knob, and no prefilter on the pinned tree): the twin pattern
+                    let knob = spec.exec == ExecKind::Backtrack;
+                    let twin = if knob { spec.clone() } else { RegexSpec { pattern: format!("(?:{}|(?!))", spec.pattern), flags: spec.flags.clone(), exec: spec.exec, input: spec.input } };
                     let (r2, st2) = model_mode(fuel, || {
                         let re = compile(&twin).ok()?;
+                        let _k = NoPrefilter::set(knob);
                         let mut it = open_iter(&re, &twin, text_static, cursor);
                         let m = it.next();
                         drop(it);
@@ -534,6 +555,9 @@ impl<'w> Model<'w> {
                         let mut stg = self.stats.lock().unwrap();
                         stg.twin_checks += 1;
                         stg.steps += st2;
+                        if knob && sched::KNOB_HITS.with(|k| k.replace(0)) > 0 {
+                            stg.twin_knob_honoured += 1;
+                        }
                     }
                     if let Ok(Some(m2)) = r2 {
                         let got = match &m2 {
@@ -627,6 +651,7 @@ impl<'w> Model<'w> {
                     Ok(re) => re,
                     Err(_) => return None,
                 };
+                let _k = NoPrefilter::set(spec.exec == ExecKind::Backtrack);
                 let mut it = open_iter(&re, &derived, text_static, 0);
                 let m = it.next();
                 drop(it);
